@@ -279,12 +279,21 @@ class CallStack(deque):
             if cells.is_cached:
                 graph.add_node(node)
 
+        pending = []
         while self.refstack:
             if self.refstack[-1][0] == self.counter:
                 _, ref = self.refstack.pop()
-                cells.model.refgraph.add_edge(ref, node)
+                if cells.is_cached:
+                    cells.model.refgraph.add_edge(ref, node)
+                elif self:
+                    # The node of an uncached cells is not in the trace graph.
+                    # Pass the reference on to the calling formula.
+                    pending.append(ref)
             else:
                 break
+
+        while pending:
+            self.refstack.append((self.counter - 1, pending.pop()))
 
         return node
 
